@@ -79,6 +79,16 @@ void do_layout(Toks &tk, std::ostream &os)
             tensor::Transpose<tensor::Matrix<double>> mT(mm);
             const tensor::Transpose<tensor::Matrix<double>> &cmT = mT;
             const double *b5 = mm.get_data().data();
+            // the transposed view of a diagonal tensor is the tensor itself: its two-index accessors take (group, layer) unchanged
+            tensor::DiagonalTensor<double> dd(R, T);
+            tensor::Transpose<tensor::DiagonalTensor<double>> ddT(dd);
+            const tensor::Transpose<tensor::DiagonalTensor<double>> &cdT = ddT;
+            const double *b6 = dd.get_data().data();
+            os << id << " @transposed_diag";
+            for (size_t a = 0; a < T; a++)
+                for (size_t i = 0; i < R; i++)
+                    os << " " << (&ddT(i, a) - b6) << " " << (&cdT(i, a) - b6);
+            os << "\n";
             os << id << " @transposed_matrix";
             for (size_t j = 0; j < C; j++)
                 for (size_t i = 0; i < R; i++)
